@@ -150,6 +150,8 @@ Definition dest_code (d : dest) : N :=
 Record cobs := {
   co_events : list (N * N * N * list (N * N));  (* (id, number, result code, composite) per Process call *)
   co_compose : list (list (N * N));            (* every ComposeFrom argument, in call order *)
+  co_sent : list (list (N * N));               (* every payload handed to Sender.Send, in call order *)
+  co_calls_ok : bool;                          (* every FlushAll / Close made by a thread returned nil *)
   co_final_res : N;                            (* result of the final FlushAll *)
   co_final_gated : list (N * (N * Z));
   co_sent_gateable : bool
@@ -174,7 +176,12 @@ Definition conc_check (o : cobs) : list kind :=
   let nums := map snd (concat (co_compose o)) in
   let idx := index_calls 0 (co_compose o) in
   let evs := co_events o in
-  (if nodupb nums then [] else [KDup]) ++
+  (if nodupb nums && nodupb (map snd (concat (co_sent o))) then [] else [KDup]) ++
+  (* Broker set, no faults: every composite built was either returned to a flush event or sent through the Broker, and
+     nothing else was sent; FlushAll / Close succeed *)
+  (if forallb (fun a => existsb (eq_list pair_eqb a) (co_sent o) || existsb (fun e => let '(_, _, r, comp) := e in N.eqb r 2 && eq_list pair_eqb a comp) evs) (co_compose o)
+      && forallb (fun a => existsb (eq_list pair_eqb a) (co_compose o)) (co_sent o) then [] else [KSent]) ++
+  (if co_calls_ok o then [] else [KRes]) ++
   (* purity and per-thread order inside every composite *)
   (if forallb (fun a => nonempty a && forallb (fun p => N.eqb (fst p) (match a with q :: _ => fst q | [] => 0 end)) a && thread_ordered a) (co_compose o)
    then [] else [KOrder]) ++
